@@ -3684,7 +3684,12 @@ class NetCDFWrite(IOWrite):
                         else:
                             ncdim = self._netcdf_name(ncdim)
 
-                            unlimited = self._unlimited(f, axis)
+                            # An unlimited dimension that no variable
+                            # spans has no records, so its size would
+                            # be read as 0
+                            unlimited = self._unlimited(f, axis) and (
+                                field or bool(spanning_constructs)
+                            )
                             self._write_dimension(
                                 ncdim, f, axis, unlimited=unlimited
                             )
